@@ -247,3 +247,30 @@ META["C03"] = dict(
         "objects handed to parse_object may be arbitrary Python values (the statement says 'whatever the input')",
     ],
 )
+
+META["C04"] = dict(
+    title="Sources override each other in the documented order, left to right",
+    level="exploration",
+    level_text="Reference-model monitor: a ten-line left fold over the sources (defaults, 0-3 default config files incl. glob "
+    "patterns whose sorted order differs from creation order and missing files, env config, env variables, 0-6 argv items that "
+    "are options / '+' appends / dict items / config files / config strings) predicts the final value of 9 keys (flat, nested, "
+    "list-typed, dict-typed); compared key by key with what the real parser returns, for parse_args, parse_env, parse_string, "
+    "parse_object and parse_path, with default_env off / on / env=True / JSONARGPARSE_DEFAULT_ENV. Values carry the index of the "
+    "source that wrote them.",
+    level_note="Trusted: vf.models.fold (the statement rewritten as code). Sampled scenarios; only unambiguous values "
+    "(ints, bools, words, int lists, str->int dicts).",
+    shards=g(4, 16),
+    budget=g(40, 240),
+    technique="reference-model (left fold) monitor over generated multi-source scenarios with source-tagged values",
+    rule="a case is (method, env mode, sequence of source kinds with the (key, assignment kind) pairs each writes); distinct by hash; "
+    "non-trivial = at least one source besides the declared defaults.",
+    gates={
+        "mon.fold_comparisons": g(1500, 20000),
+        "st.source.default_file": g(400, 4000), "st.source.env_config": g(100, 1000), "st.source.env_var": g(150, 1500),
+        "st.source.argv_plain": g(400, 4000), "st.source.argv_append": g(100, 1000), "st.source.argv_dictitem": g(100, 1000),
+        "st.source.argv_cfg_file": g(100, 1000), "st.source.argv_cfg_string": g(100, 1000),
+        "st.source.parse_string": g(50, 500), "st.source.parse_object": g(50, 500), "st.source.parse_path": g(50, 500),
+        "st.pair.default>env": g(50, 500), "st.pair.env>argv": g(50, 500), "st.pair.default>argv": g(100, 1000), "st.pair.argv>argv": g(300, 3000),
+    },
+    assumptions=["dict items (key.item) are given on the command line only; config documents hold plain and '+' assignments"],
+)
